@@ -218,7 +218,11 @@ func (v *verifC15) apply(tok []string, probes []uint64) string {
 				fmt.Fprintf(sb, " %d-%d:%s", start, last, prev)
 			}
 		}
-		for n := int(verifC15I64(tok[1])); n <= len(content); n++ {
+		from := int(verifC15I64(tok[1]))
+		if from < len(content)-400 {
+			from = len(content) - 400 // at most 401 truncation points
+		}
+		for n := from; n <= len(content); n++ {
 			p := filepath.Join(v.dir, "sweep.cidx")
 			if err := os.WriteFile(p, content[:n], 0644); err != nil {
 				panic(err)
